@@ -85,13 +85,13 @@ func VerifSys(s *System) VSys {
 	if es, ok := s.eventStream.(*eventStream); ok {
 		for t, subs := range es.subscribers {
 			for p := range subs {
-				d.Subscribers[t.String()] = append(d.Subscribers[t.String()], p)
+				d.Subscribers[fmt.Sprint(t)] = append(d.Subscribers[fmt.Sprint(t)], p)
 			}
-			sort.Strings(d.Subscribers[t.String()])
+			sort.Strings(d.Subscribers[fmt.Sprint(t)])
 		}
 		for p, ts := range es.subscriberTypes {
 			for t := range ts {
-				d.SubscriberTypes[p] = append(d.SubscriberTypes[p], t.String())
+				d.SubscriberTypes[p] = append(d.SubscriberTypes[p], fmt.Sprint(t))
 			}
 			sort.Strings(d.SubscriberTypes[p])
 		}
